@@ -279,6 +279,7 @@ class InstrMixin:
         boxed = ins['id'] in self.escaping(ctx['fn'])
         if boxed:
             r = self.fresh_ref('new_' + (ins.get('name') or ins['id']))
+            self.boxrefs[cid] = (r, et, k)
             if k == 'struct':
                 z = self.ty.zero(et, self.fresh_ref)
                 for fname, ftype in self.ty.struct_fields(et):
